@@ -26,7 +26,18 @@ from elementpath.xpath_nodes import XPathNode, AttributeNode, NamespaceNode, \
     CommentNode, ProcessingInstructionNode, ElementNode, DocumentNode
 from elementpath.tree_builders import get_node_tree
 
-__all__ = ['XPathContext', 'XPathSchemaContext']
+__all__ = ['XPathContext', 'XPathSchemaContext', 'ABSENT_FOCUS']
+
+
+class _AbsentFocus:
+    """The context item inside the body of an inline function: the focus is absent."""
+    __slots__ = ()
+
+    def __repr__(self) -> str:
+        return 'absent focus'
+
+
+ABSENT_FOCUS: Any = _AbsentFocus()
 
 
 class XPathContext:
